@@ -116,7 +116,13 @@ class ParticleReleaser(Iterator[pd.DataFrame]):
         if warm_start_file:
             # Get particle data from  warm start file
             with Dataset(warm_start_file) as f:
-                warm_particle_count = np.max(f.variables["pid"][:]) + 1
+                warm_particle_count = (
+                    len(f.dimensions["particle"]) if "particle" in f.dimensions else 0
+                )
+                if len(f.variables["pid"]) > 0:
+                    warm_particle_count = max(
+                        warm_particle_count, int(np.max(f.variables["pid"][:])) + 1
+                    )
             logger.info("  warm_particle_count: %d", warm_particle_count)
         #         for name in config["particle_variables"]:
         #             pvars[name] = f.variables[name][:warm_particle_count]
